@@ -96,7 +96,7 @@ def run_case(rec, case):
                                   "cmd" if x < 0.75 else "cli")
     wd = rec.tmpdir()
     odd = r.choice(["", "", "", " with space", "_ünï", "_日本"])     # file names are free text, too
-    src, st, pt = drive.fresh(wd, odd + ".suit"), drive.fresh(wd, odd + ".hex"), drive.fresh(wd, odd + ".hex")
+    src, st, pt = drive.fresh(wd, odd + ".suit"), drive.fresh_out(wd, odd + ".hex"), drive.fresh_out(wd, odd + ".hex")
     with open(src, "wb") as fh:
         fh.write(data)
     full = dict(case, size=size, dfu=dfu, uci=uci, caches=caches, route=route)
